@@ -218,6 +218,10 @@ func (s *endpointServer) findSession(id uint64) (*connection, *remoteErr) {
 	return c, nil
 }
 
+// maxReadSize caps the buffer that a single read request can make the
+// endpoint allocate.
+const maxReadSize = 1 << 20
+
 func (s *endpointServer) handleRead(req *readRequest) *readResponse {
 	if s.options.Siding {
 		return &readResponse{err: remoteErrSiding}
@@ -226,7 +230,16 @@ func (s *endpointServer) handleRead(req *readRequest) *readResponse {
 	if rerr != nil {
 		return &readResponse{err: rerr}
 	}
-	buf := make([]byte, req.maxRead)
+	size := req.maxRead
+	if size < 0 {
+		return &readResponse{
+			err: newRemoteErrString(errRead, "negative read size"),
+		}
+	}
+	if size > maxReadSize {
+		size = maxReadSize // A short read is a valid read.
+	}
+	buf := make([]byte, size)
 	n, err := conn.Read(buf)
 	resp := &readResponse{bytes: buf[:n]}
 	if err != nil {
